@@ -1,16 +1,19 @@
 /-
 The invariant of the pair model holds in every reachable state: it holds initially and every
-action of either side preserves it.
+action of either side preserves it — the stream part (`stepL_core`: the 15 stream / datagram / task
+actions by the lemmas of `PairStep`, `PairApp`, `PairRecv`; the four bind calls and a `Bind` frame by
+`PairBind`: they concern a flow id that is bound, hence dead) and the separation of bind requests
+from streams (`stepL_binds`).
 -/
-import Penguin.Lemmas.PairRecv
+import Penguin.Lemmas.PairBind
 
 namespace Penguin.Pair
 open Penguin.Mux
 
 /-- A dropped-handle notification is handled: a live flow is released (it stays live, its sending
     direction continues with the sender frozen); a flow that was never linked is dead. -/
-theorem inv_notif {p : PS} (h : Inv p) (fid : Nat) (rest : List Nat) (hq : p.a.droppedq = fid :: rest) :
-    Inv { p with a := (closeFlow { p.a with droppedq := rest } fid false).1 } := by
+theorem inv_notif {p : PS} (h : InvCore p) (fid : Nat) (rest : List Nat) (hq : p.a.droppedq = fid :: rest) :
+    InvCore { p with a := (closeFlow { p.a with droppedq := rest } fid false).1 } := by
   have s1 : Eff (· = fid) p.a { p.a with droppedq := rest } := Eff.dqPop p.a fid rest hq rfl
   have s := s1.trans (closeFlow_eff _ fid false (s1.slotFid h.sfA))
   have hgf : GhostFresh (closeFlow { p.a with droppedq := rest } fid false).1 p.ga :=
@@ -101,8 +104,8 @@ theorem runRetries_rng_nil (e : EP) (l : List Nat) (h : e.rng = []) : (Mux.runRe
     · exact ih _ (openRound_rng_nil e _ h)
 
 /-- The rejected open requests run their next round. -/
-theorem inv_runRetries {p : PS} (h : Inv p) (l : List Nat) (hne : (Mux.runRetries p.a l).1.rng ≠ []) :
-    Inv { p with a := (Mux.runRetries p.a l).1 } := by
+theorem inv_runRetries {p : PS} (h : InvCore p) (l : List Nat) (hne : (Mux.runRetries p.a l).1.rng ≠ []) :
+    InvCore { p with a := (Mux.runRetries p.a l).1 } := by
   induction l generalizing p with
   | nil => exact h
   | cons req rest ih =>
@@ -120,8 +123,27 @@ theorem inv_runRetries {p : PS} (h : Inv p) (l : List Nat) (hne : (Mux.runRetrie
       have h1 := inv_openRound h r hne1
       exact ih (p := { p with a := (openRound p.a r).1 }) h1 hne
 
-/-- One action of the left endpoint preserves the invariant. -/
-theorem stepL_inv {p p' : PS} (a : Act) (h : Inv p) (hs : stepL p a = some p') : Inv p' := by
+theorem binds_runRetries {p : PS} (hc : InvCore p) (hb : Binds p) (l : List Nat) (hne : (Mux.runRetries p.a l).1.rng ≠ []) :
+    Binds { p with a := (Mux.runRetries p.a l).1 } := by
+  induction l generalizing p with
+  | nil => exact hb
+  | cons req rest ih =>
+    cases hf : p.a.opens.find? (·.req = req) with
+    | none =>
+      have he : Mux.runRetries p.a (req :: rest) = Mux.runRetries p.a rest := by
+        rw [Mux.runRetries]; simp only [hf]
+      rw [he] at hne ⊢
+      exact ih hc hb hne
+    | some r =>
+      have he : (Mux.runRetries p.a (req :: rest)).1 = (Mux.runRetries (openRound p.a r).1 rest).1 := by
+        rw [Mux.runRetries]; simp only [hf]
+      rw [he] at hne ⊢
+      have hne1 : (openRound p.a r).1.rng ≠ [] := fun hh => hne (runRetries_rng_nil _ rest hh)
+      exact ih (p := { p with a := (openRound p.a r).1 }) (inv_openRound hc r hne1) (binds_openRound hc hb r hne1) hne
+
+/-- One action of the left endpoint preserves the stream part of the invariant. -/
+theorem stepL_core {p p' : PS} (a : Act) (hi : Inv p) (hs : stepL p a = some p') : InvCore p' := by
+  have h : InvCore p := hi.toInvCore
   cases a with
   | «open» req host port =>
     simp only [stepL] at hs
@@ -166,16 +188,17 @@ theorem stepL_inv {p p' : PS} (a : Act) (h : Inv p) (hs : stepL p a = some p') :
     split at hs
     · cases hs
     · split at hs
-      · cases hs
-      · rename_i f rest hnbind hba
+      · rename_i f rest hba
         split at hs
         · rename_i e evs hpf
           cases hs
-          have hnb : ∀ a b c d, f ≠ .bind a b c d := by
-            intro a b c d hf; subst hf; exact hnbind a b c d rfl
-          have := inv_recv h f rest hba hnb
-          rw [hpf] at this
-          exact this
+          have he : e = (processFrame p.a f false).1 := by rw [hpf]
+          subst he
+          by_cases hb : ∃ x bt port host, f = .bind x bt port host
+          · obtain ⟨x, bt, port, host, rfl⟩ := hb
+            exact core_recvBind h hi.binds x bt port host rest hba
+          · have hnb : ∀ a b c d, f ≠ .bind a b c d := fun a b c d hf => hb ⟨a, b, c, d, hf⟩
+            exact inv_recv h f rest hba hnb
         · cases hs
       · cases hs
   | notif =>
@@ -194,9 +217,131 @@ theorem stepL_inv {p p' : PS} (a : Act) (h : Inv p) (hs : stepL p a = some p') :
     · cases hs
     · rename_i hne
       cases hs
-      have h0 : Inv { p with a := { p.a with retryq := [] } } :=
+      have h0 : InvCore { p with a := { p.a with retryq := [] } } :=
         inv_of_silent h (Eff.silent rfl rfl rfl rfl rfl rfl rfl rfl rfl)
       exact inv_runRetries (p := { p with a := { p.a with retryq := [] } }) h0 _ (by intro hh; apply hne; simp [hh])
+  | bindReq req bt host port =>
+    simp only [stepL] at hs
+    split at hs
+    · cases hs
+    · rename_i hne
+      cases hs
+      exact (core_bindReq h req bt host port (by intro hh; apply hne; simp [hh])).1
+  | bindNext => simp only [stepL] at hs; cases hs; exact core_bindNext h
+  | bindReply k acc => simp only [stepL] at hs; cases hs; exact core_bindReply h hi.binds k acc
+  | bindDrop k => simp only [stepL] at hs; cases hs; exact core_bindDrop h hi.binds k
+
+/-- One action of the left endpoint keeps the flow ids of bind requests apart from every stream. -/
+theorem stepL_binds {p p' : PS} (a : Act) (hi : Inv p) (hs : stepL p a = some p') : Binds p' := by
+  have h : InvCore p := hi.toInvCore
+  have hb : Binds p := hi.binds
+  cases a with
+  | «open» req host port =>
+    simp only [stepL] at hs
+    split at hs
+    · cases hs
+    · split at hs
+      · cases hs
+      · rename_i hne
+        cases hs
+        exact binds_openRound h hb _ (by intro hh; apply hne; simp [appOpen, hh])
+  | cancelOpen req =>
+    simp only [stepL] at hs; cases hs
+    exact binds_silent (g' := p.ga) h hb (Eff.silent rfl rfl rfl rfl rfl rfl rfl rfl rfl) (BSame.silent rfl rfl rfl rfl)
+  | accept =>
+    simp only [stepL] at hs; cases hs
+    exact binds_silent (g' := p.ga) h hb (appAccept_eff _ _) (BSame.appAccept _ _)
+  | write hd d =>
+    simp only [stepL] at hs
+    split at hs
+    · cases hs
+    · cases hs; exact binds_write h hb hd d _
+  | read hd n =>
+    simp only [stepL] at hs
+    split at hs
+    · cases hs
+    · cases hs; exact binds_read h hb hd n _
+  | shutdown hd =>
+    simp only [stepL] at hs
+    split at hs
+    · cases hs
+    · cases hs; exact binds_shutdown h hb hd
+  | dropStream hd =>
+    simp only [stepL] at hs
+    split at hs
+    · cases hs
+    · cases hs; exact binds_dropStream h hb hd _
+  | sendDgram d =>
+    simp only [stepL] at hs; cases hs
+    exact binds_silent h hb (appSendDgram_eff _ _ _) (BSame.appSendDgram _ _ _)
+  | recvDgram =>
+    simp only [stepL] at hs; cases hs
+    exact binds_silent h hb (appRecvDgram_eff _ _) (BSame.appRecvDgram _ _)
+  | xmit =>
+    simp only [stepL] at hs
+    split at hs
+    · cases hs
+    · rename_i m rest hq; cases hs; exact binds_xmit hb m rest hq
+  | recv =>
+    simp only [stepL] at hs
+    split at hs
+    · cases hs
+    · split at hs
+      · rename_i f rest hba
+        split at hs
+        · rename_i e evs hpf
+          cases hs
+          have he : e = (processFrame p.a f false).1 := by rw [hpf]
+          subst he
+          exact binds_recv h hb f rest hba _
+        · cases hs
+      · cases hs
+  | notif =>
+    simp only [stepL] at hs
+    split at hs
+    · rename_i fid rest hq
+      split at hs
+      · cases hs
+      · cases hs; exact binds_notif h hb fid rest hq
+    · cases hs
+  | unpark =>
+    simp only [stepL] at hs; cases hs
+    exact binds_silent (g' := p.ga) h hb (unpark_eff _ _ h.runA.muxAlive) (BSame.unpark _ _)
+  | runDone =>
+    simp only [stepL] at hs; cases hs
+    exact binds_silent (g' := p.ga) h hb
+      ((Eff.silent rfl rfl rfl rfl rfl rfl rfl rfl rfl : Eff _ p.a { p.a with doneq := [] }).trans (runDone_eff _ _ _))
+      ((BSame.silent rfl rfl rfl rfl : BSame _ p.a { p.a with doneq := [] }).trans (BSame.runDone _ _ _))
+  | runRetries =>
+    simp only [stepL] at hs
+    split at hs
+    · cases hs
+    · rename_i hne
+      cases hs
+      have h0 : InvCore { p with a := { p.a with retryq := [] } } :=
+        inv_of_silent h (Eff.silent rfl rfl rfl rfl rfl rfl rfl rfl rfl)
+      have hb0 : Binds { p with a := { p.a with retryq := [] } } :=
+        binds_silent (g' := p.ga) h hb (Eff.silent rfl rfl rfl rfl rfl rfl rfl rfl rfl) (BSame.silent rfl rfl rfl rfl)
+      exact binds_runRetries (p := { p with a := { p.a with retryq := [] } }) h0 hb0 _ (by intro hh; apply hne; simp [hh])
+  | bindReq req bt host port =>
+    simp only [stepL] at hs
+    split at hs
+    · cases hs
+    · rename_i hne
+      cases hs
+      exact binds_bindReq h hb req bt host port (by intro hh; apply hne; simp [hh])
+  | bindNext => simp only [stepL] at hs; cases hs; exact binds_bindNext h hb
+  | bindReply k acc => simp only [stepL] at hs; cases hs; exact binds_bindReply h hb k acc
+  | bindDrop k => simp only [stepL] at hs; cases hs; exact binds_bindDrop h hb k
+
+/-- One action of the left endpoint preserves the invariant. -/
+theorem stepL_inv {p p' : PS} (a : Act) (h : Inv p) (hs : stepL p a = some p') : Inv p' :=
+  ⟨stepL_core a h hs, stepL_binds a h hs⟩
+
+/-- An id that is still in a script is fresh. -/
+theorem fresh_of_inRng {p : PS} (h : Inv p) (x : Nat) (hx : x ∈ p.a.rng ∨ x ∈ p.b.rng) :
+    Fresh x (ev x p.a p.ga) (ev x p.b p.gb) (fl x (pathAB p)) (fl x (pathBA p)) :=
+  fresh_of_inRng_core h.toInvCore x hx
 
 /-- One action of either side preserves the invariant. -/
 theorem step_inv {p p' : PS} (s : Side) (a : Act) (h : Inv p) (hs : step p s a = some p') : Inv p' := by
@@ -222,16 +367,24 @@ theorem run_inv (p : PS) (as : List (Side × Act)) (h : Inv p) : Inv (run p as) 
 theorem init_inv (oa ob : Opts) (ra rb : List Nat)
     (hoa : 0 < oa.rwnd ∧ oa.rwnd < 4294967296) (hob : 0 < ob.rwnd ∧ ob.rwnd < 4294967296)
     (hnd : (ra ++ rb).Nodup) (hnz : ∀ k ∈ ra ++ rb, k ≠ 0) : Inv (init oa ob ra rb) := by
-  refine ⟨⟨rfl, rfl, rfl, hoa.1, hoa.2⟩, ⟨rfl, rfl, rfl, hob.1, hob.2⟩, ?_, ?_, hnd, hnz,
-    fun _ _ => ⟨rfl, rfl, rfl⟩, fun _ _ => ⟨rfl, rfl, rfl⟩, ?_, fun x hx => by cases hx⟩
-  · intro y k hy; simp [init] at hy
-  · intro y k hy; simp [init] at hy
-  · intro x
-    by_cases hx : x ∈ ra ∨ x ∈ rb
-    · exact Or.inl ⟨hx, rfl, rfl, rfl, rfl, fun k => by simp [ev, objView, init], fun k => by simp [ev, objView, init],
-        by simp [ev, init], by simp [ev, init]⟩
-    · have h1 : ¬ x ∈ ra := fun hh => hx (Or.inl hh)
-      have h2 : ¬ x ∈ rb := fun hh => hx (Or.inr hh)
-      exact Or.inr (Or.inr (Or.inr (Or.inr (Or.inr (Or.inr ⟨h1, h2, (by intro m hm; cases hm), (by intro m hm; cases hm), Or.inl rfl⟩)))))
+  refine ⟨?_, ?_⟩
+  · refine ⟨⟨rfl, rfl, rfl, hoa.1, hoa.2⟩, ⟨rfl, rfl, rfl, hob.1, hob.2⟩, ?_, ?_, hnd, hnz,
+      fun _ _ => ⟨rfl, rfl, rfl⟩, fun _ _ => ⟨rfl, rfl, rfl⟩, ?_, fun x hx => by cases hx⟩
+    · intro y k hy; simp [init] at hy
+    · intro y k hy; simp [init] at hy
+    · intro x
+      by_cases hx : x ∈ ra ∨ x ∈ rb
+      · exact Or.inl ⟨hx, rfl, rfl, rfl, rfl, fun k => by simp [ev, objView, init], fun k => by simp [ev, objView, init],
+          by simp [ev, init], by simp [ev, init]⟩
+      · have h1 : ¬ x ∈ ra := fun hh => hx (Or.inl hh)
+        have h2 : ¬ x ∈ rb := fun hh => hx (Or.inr hh)
+        exact Or.inr (Or.inr (Or.inr (Or.inr (Or.inr (Or.inr ⟨h1, h2, (by intro m hm; cases hm), (by intro m hm; cases hm), Or.inl rfl⟩)))))
+  · -- nothing is marked
+    intro x hm
+    rcases hm with ⟨m, hm, _⟩ | ⟨m, hm, _⟩ | hm | hm
+    · simp [init, pathAB] at hm
+    · simp [init, pathBA] at hm
+    · simp [init, bindIds] at hm
+    · simp [init, bindIds] at hm
 
 end Penguin.Pair
